@@ -30,6 +30,10 @@ LIBC_CONSTS = {"MAP_ANONYMOUS": 0x20, "MAP_ANON": 0x20, "MAP_PRIVATE": 2, "MAP_J
                "PROT_EXEC": 4, "_SC_PAGESIZE": 30}
 
 
+import re
+IDENT_RE = re.compile(r"^[A-Za-z_][A-Za-z0-9_']*$")
+
+
 class Ty:
     """types of the subset"""
 
@@ -1032,7 +1036,8 @@ class FnCompiler:
         if not mv:
             raise Unsupported("while loop without state")
         used = names_used(e)
-        caps = [n for n in cx.env if n in used and n not in mv and not isinstance(cx.env[n][0], tuple) and cx.env[n][1].kind != "range"]
+        caps = [n for n in cx.env if n in used and n not in mv and not isinstance(cx.env[n][0], tuple) and cx.env[n][1].kind != "range"
+                and IDENT_RE.match(cx.env[n][0])]      # local consts are inlined literals, not variables
         self.nloops += 1
         self.needs_fuel = True
         lname = f"{self.lean_name}_loop{self.nloops}"
